@@ -321,7 +321,37 @@ class Parser:
                 self.i += 1
             return ("un", t.line, t.text, self.unary())
         if t.kind == "punct" and t.text in ("|", "||"):
-            raise SiteError("closures are not part of the Rust fragment this translator evaluates", t.line)
+            # a closure `|pattern, ..| body` (no captures by move, no type annotations)
+            self.i += 1
+            pats = []
+            if t.text == "|":
+                toks = []
+                while not self.at_p("|"):
+                    if self.eof():
+                        raise SiteError("unterminated closure parameter list", t.line)
+                    toks.append(self.next())
+                self.i += 1
+                parts, _ = split_top(toks)
+                pats = [Parser(q, t.line).whole_pattern() for q in parts]
+            return ("closure", t.line, pats, self.expr())
+        if t.is_p("<"):
+            # `<T>::name`: a path qualified by a type (`<()>::parse_in`)
+            self.i += 1
+            ty = []
+            while not self.at_p(">"):
+                if self.eof():
+                    raise SiteError("unterminated `<type>` qualifier", t.line)
+                ty.append(self.next())
+            self.i += 1
+            if len(ty) == 1 and is_group(ty[0], "Paren") and not ty[0].sub:
+                name = "unit"
+            else:
+                name = last_ident(strip_angles(ty))
+            segs = [name]
+            while self.at_p("::") and self.peek(1) is not None and self.peek(1).kind == "ident":
+                segs.append(self.peek(1).text)
+                self.i += 2
+            return self.postfix(("path", t.line, segs))
         return self.postfix(self.primary())
 
     def postfix(self, e, only_dot=False):
@@ -1279,6 +1309,8 @@ class Interp:
             return UNIT
         if k == "return":
             raise _Return(self.ev(e[2], env, st) if e[2] is not None else UNIT)
+        if k == "closure":
+            return ("closure", e[2], e[3], env)
         if k == "break":
             raise _Break(self.ev(e[2], env, st) if len(e) > 2 and e[2] is not None else None)
         if k == "loop":
@@ -1484,6 +1516,12 @@ class Interp:
             if (None, name) in getattr(self, "externs", {}):
                 return ("extern", self.externs[(None, name)])
             raise SiteError(f"`{name}` is neither a local variable nor a constant, function or tuple struct of {self.mod.rel}", ln)
+        if len(segs) >= 3:
+            q = (segs[-3] + "::" + segs[-2], segs[-1])
+            if q in getattr(self, "ext_values", {}):
+                return self.ext_values[q]
+            if q in getattr(self, "externs", {}):
+                return ("extern", self.externs[q])
         ty, name = segs[-2], segs[-1]
         if ty == "Self":
             if st is None:
@@ -1565,7 +1603,31 @@ class Interp:
             return v[1]
         return None
 
+    def apply(self, f, args, st, ln):
+        """applies a function value (closure, constructor, extern, fn of the file) to evaluated arguments"""
+        if f[0] == "closure":
+            pats, body, cenv = f[1], f[2], f[3]
+            if len(pats) != len(args):
+                raise SiteError("a closure is applied to another number of arguments than it takes", ln)
+            b = {}
+            for q, a in zip(pats, args):
+                if q[0] == "ptuple" and not q[2] and a[0] == "unit":
+                    continue
+                if not self.pm(q, a, b, cenv, st):
+                    raise SiteError("the parameter pattern of a closure does not match its argument", ln)
+            return self.ev(body, cenv + [b], st)
+        if f[0] == "ctor":
+            return ("variant", f[1], f[2], list(args))
+        if f[0] == "extern":
+            return f[1](list(args), ln)
+        if f[0] == "fn":
+            return self.call(f[1], list(args), st)
+        raise SiteError(f"{show_val(f)} is not a function value", ln)
+
     def method(self, recv, name, args, st, ln):
+        if recv[0] == "variant" and recv[2] == "Meta" and name == "map" and len(args) == 1 and len(recv[3]) == 2:
+            # locspan::Meta::map: the function is applied to the value, the metadata stays
+            return ("variant", recv[1], "Meta", [self.apply(args[0], [recv[3][0]], st, ln), recv[3][1]])
         if recv[0] == "parser":
             return parser_stub_method(recv[1], name, args, ln)
         ext = getattr(self, "ext_methods", {})
@@ -1708,6 +1770,8 @@ class Interp:
                 ty = st
             is_variant = (ty in self.mod.enums and any(n == name for n, _, _ in self.mod.enums[ty])) or (
                 ty is None and (name in ("Some", "None", "Ok", "Err") or name in self.mod.structs or name == "Self"))
+            if not is_variant and v[0] == "variant" and v[1] is not None and (ty == v[1] or (ty is None and name == v[1] == v[2])):
+                is_variant = True          # a variant of a type declared in another file (array::StartFragment::Empty, Meta(..))
             if not is_variant:
                 if sub is not None:
                     raise SiteError(f"`{'::'.join(segs)}` in a pattern is not a variant this translator can resolve", ln)
@@ -2815,6 +2879,130 @@ def site_leaf_object(which):
         return out, fn.line, f"fn {fn.where()} (object.rs), executed on {len(OBJECT_WORDS)} inputs x 2 option records against the Parser stub, keys through SmallString::parse_in"
     return f
 
+
+# ----------------------------------------------------------------------------- Fragment::parse_in, executed
+def _fragment_words():
+    al = _o("ntf0-\"[{]},: x1")
+    words = _words(al, 2)
+    for t in ("null", "nul", "nulL", "true,", "tru", "false]", "fals", "-1.5e3 ", "-", "0.", "12,", "9}", "\"ab\"", "\"\\ud83d\"",
+              "\"\\ud83d\\ude00\" ", "\"a", "[]", "[ ]", "[ \n]x", "[1", "[ [", "{}", "{ }", "{\"a\":", "{ \"a\" : ", "{\"a\" x", "{\"\\ud83d\":",
+              "{,", "  null", "\t\r\n[", " ", "\n\n", "nullx", "01", "+1", ".5", "\u00e9", "\ufeff[]", "/", "N", "T", "'a'"):
+        words.append(_o(t))
+    words += [[STREAM_ERR], _o(" ") + [STREAM_ERR], _o("n") + [STREAM_ERR], _o("[") + [STREAM_ERR], _o("{ ") + [STREAM_ERR],
+              _o("1") + [STREAM_ERR], _o("\"a") + [STREAM_ERR], _o("tru") + [STREAM_ERR]]
+    seen, out = set(), []
+    for w in words:
+        if tuple(w) not in seen:
+            seen.add(tuple(w))
+            out.append(w)
+    return out
+
+
+FRAGMENT_WORDS = _fragment_words()
+
+
+def site_leaf_fragment(mods):
+    """Fragment::parse_in of value.rs (white space, dispatch on the first character, how each sub-parser's result is
+    wrapped), executed in each context under the strict and the flexible record; the sub-parsers are the functions of
+    null.rs, boolean.rs, number.rs, string.rs, array.rs and object.rs, each run by its own interpreter on the same stub"""
+    vmod = mods("src/parse/value.rs")
+    pmod = mods("src/parse/mod.rs")
+    fn = _impl_parse_in(vmod, "Fragment")
+    nmod, bmod, numod = mods("src/parse/null.rs"), mods("src/parse/boolean.rs"), mods("src/parse/number.rs")
+    smod, amod, omod = mods("src/parse/string.rs"), mods("src/parse/array.rs"), mods("src/parse/object.rs")
+    nfn = [f for (t, name), fs in nmod.impl_fns.items() if name == "parse_in" for f in fs]
+    if len(nfn) != 1:
+        raise SiteError(f"expected one `fn parse_in` in src/parse/null.rs, found {len(nfn)}")
+    follows = pmod.find_fn("follows", "Context")
+    basic = {
+        ("Error", "unexpected"): lambda args, ln: ("variant", "Error", "Unexpected", list(args)),
+        (None, "Meta"): lambda args, ln: ("variant", "Meta", "Meta", list(args)),
+    }
+
+    def sub(mod, f, st, externs=None, ext_methods=None, ext_values=None):
+        def call(args, ln):
+            it = Interp(mod)
+            it.externs = dict(basic)
+            it.externs.update(externs or {})
+            it.ext_methods = ext_methods or {}
+            it.ext_values = ext_values or {}
+            return it.call(f, list(args), st)
+        return call
+
+    def follows_ext(recv, args, ln):
+        v, _ = run(pmod, follows, [recv] + list(args), "a context and a character")
+        return v
+    string_in = sub(smod, parse_in_fn(smod), "SmallString", _string_externs())
+    key_ext = dict(_string_externs())
+    key_ext[("Key", "parse_in")] = string_in
+    subs = {
+        ("unit", "parse_in"): sub(nmod, nfn[0], None),
+        ("bool", "parse_in"): sub(bmod, _impl_parse_in(bmod, "bool"), None),
+        ("NumberBuf", "parse_in"): sub(numod, _impl_parse_in(numod, "NumberBuf"), "NumberBuf",
+                                       {("SmallVec", "new"): lambda args, ln: ("bytebuf", []),
+                                        ("NumberBuf", "new_unchecked"): lambda args, ln: args[0]},
+                                       {("Context", "follows"): follows_ext}),
+        ("String", "parse_in"): string_in,
+        ("array::StartFragment", "parse_in"): sub(amod, _impl_parse_in(amod, "StartFragment"), "StartFragment"),
+        ("object::StartFragment", "parse_in"): sub(omod, _impl_parse_in(omod, "StartFragment"), "StartFragment", key_ext, None,
+                                                    {("Context", "ObjectKey"): ("variant", "Context", "ObjectKey", [])}),
+    }
+    mkv = lambda name: (lambda args, ln: ("variant", "Value", name, list(args)))
+    out = []
+    for k, (cname, kind, vln) in enumerate(pmod.enums["Context"]):
+        for o in (0, 3):
+            for w in FRAGMENT_WORDS:
+                it = Interp(vmod)
+                it.externs = dict(basic)
+                it.externs.update(subs)
+                it.externs.update({("Value", n): mkv(n) for n in ("Boolean", "Number", "String", "Array", "Object")})
+                it.externs[("Array", "new")] = lambda args, ln: ("list", [])
+                it.externs[("Object", "new")] = lambda args, ln: ("variant", "Object", "Object", [])
+                it.ext_values = {("Value", "Null"): ("variant", "Value", "Null", [])}
+                stub = parser_stub(w)
+                stub[1]["trunc"], stub[1]["inval"] = bool(o & 1), bool(o & 2)
+                try:
+                    v = it.call(fn, [stub, ("variant", "Context", cname, [])], "Fragment")
+                except EvalPanic as e:
+                    raise SiteError(f"`{fn.where()}` panics on the input {[hex(c) for c in w]}: {e}", fn.line)
+                if v[0] != "variant" or v[2] not in ("Ok", "Err"):
+                    raise SiteError(f"`{fn.where()}` yields {show_val(v)}, expected a Result", fn.line)
+                x = v[3][0]
+                word = [k, o] + w
+                if v[2] == "Err":
+                    out.append((word, _err_outcome(x, fn)))
+                    continue
+                if not (x[0] == "variant" and x[2] == "Meta" and x[3][1][0] == "int" and x[3][0][0] == "variant"):
+                    raise SiteError(f"`{fn.where()}` returns {show_val(x)}, expected Meta(fragment, index)", fn.line)
+                idx, fr = x[3][1][1], x[3][0]
+                e, payload = 0, []
+                if fr[2] == "BeginArray" and not fr[3]:
+                    kindn = 7
+                elif fr[2] == "BeginObject" and len(fr[3]) == 1 and fr[3][0][0] == "variant" and fr[3][0][2] == "Meta" \
+                        and fr[3][0][3][0][0] == "strbuf":
+                    kindn, e, payload = 8, fr[3][0][3][1][1], list(fr[3][0][3][0][1])
+                elif fr[2] == "Value" and len(fr[3]) == 1 and fr[3][0][0] == "variant" and fr[3][0][1] == "Value":
+                    val = fr[3][0]
+                    if val[2] == "Null":
+                        kindn = 0
+                    elif val[2] == "Boolean" and val[3][0][0] == "bool":
+                        kindn = 1 if val[3][0][1] else 2
+                    elif val[2] == "Number" and val[3][0][0] == "bytebuf":
+                        kindn, payload = 3, list(val[3][0][1])
+                    elif val[2] == "String" and val[3][0][0] == "strbuf":
+                        kindn, payload = 4, list(val[3][0][1])
+                    elif val[2] == "Array" and val[3][0] == ("list", []):
+                        kindn = 5
+                    elif val[2] == "Object" and val[3][0][0] == "variant" and val[3][0][2] == "Object":
+                        kindn = 6
+                    else:
+                        raise SiteError(f"`{fn.where()}` returns the value {show_val(val)}", fn.line)
+                else:
+                    raise SiteError(f"`{fn.where()}` returns the fragment {show_val(fr)}", fn.line)
+                out.append((word, [0, kindn, idx, stub[1]["pos"], e, len(payload)] + payload + [n for e_ in stub[1]["cm"] for n in e_]))
+    return out, fn.line, (f"fn Fragment::parse_in (value.rs), executed on {len(FRAGMENT_WORDS)} inputs x 4 contexts x 2 option records "
+                          f"against the Parser stub, sub-parsers run from their own files")
+
 def cval_of(v, line):
     k = v[0]
     if k == "int":
@@ -3118,6 +3306,12 @@ def _sites():
                              + " ".join(str(n) for n in o) for w, o in v],
             thm="C05_object_functions_from_source",
             model="the outcome of Parser.object_start / object_continue under the same option record on the same inputs")
+    add(id="leaf_fragment", file="src/parse/value.rs", props=["C01", "C02", "C05", "C07"], ev=site_leaf_fragment,
+        ty="list (list N * list N)", coq=lambda v: c_list([f"({c_cps(w)}, {c_cps(o)})" for w, o in v], ";\n   "),
+        items=lambda v: [f"context {w[0]} options {w[1]}: " + " ".join("<fails>" if c == STREAM_ERR else u(c) for c in w[2:]) + " -> "
+                         + " ".join(str(n) for n in o) for w, o in v],
+        thm="C02_fragment_from_source",
+        model="the outcome of Parser.parse_fragment in the same context under the same option record on the same inputs")
     add(id="is_control", file="src/parse/string.rs", props=parse_props, ev=site_is_control,
         ty="list (N * N)", coq=c_set, items=s_set, thm="C01_control_from_source",
         model="set_of Parser.is_control char_domain")
